@@ -748,9 +748,28 @@ def replay_replacement(sql, dn, C, field):
 
 
 # ------------------------------------------------------------------------------------------ main
+def consumer_obligations(rep, tier):
+    """the analyses the statement names as built on the walker (finding / filling placeholders): their visitors collect in visit order and
+    consume values in that same order (contracts stated and discharged in contracts/C12.py, relayed here)"""
+    from contracts import C12
+    sub = type(rep)('C12', tier, C12.LEVEL)
+    C12.collect_contract(sub)
+    C12.fill_contract(sub)
+    for o in sub.obs:
+        oid = 'C13.consumer.' + o.id.split('.', 1)[1]
+        kw = dict(function=o.function, clause=o.clause, seconds=o.seconds)
+        if o.status == PROVED:
+            rep.proved(oid, o.engine, o.detail, **kw)
+        elif o.status == FAILED:
+            rep.failed(oid, o.engine, o.detail, cex=o.cex, replay=o.replay, **kw)
+        else:
+            rep.undecided(oid, o.engine, o.detail, **kw)
+
+
 def check(rep, tier):
     from vlib import statecensus
     statecensus.obligations(rep, 'C13', 'planner')
+    consumer_obligations(rep, tier)
     rep.dropped = 'function body read with ast.parse from $REPO_ROOT/mindsdb_sql/planner/utils.py; docstring and comments dropped'
     rep.assume('structural induction: the recursive call satisfies the contract on the (structurally smaller) child',
                'slot discovery: a child slot that no grammar production (and no test statement) ever fills is not in the spec',
